@@ -24,17 +24,6 @@ Definition drop_star_names (s : import_stmt) : list import_stmt :=
 Definition drop_star (pr : project) : project :=
   map_imports (fun m => if m_is_pkg m then flat_map drop_star_names (m_imports m) else m_imports m) pr.
 
-(* class 6 with IncludeThirdParty = false: "from d import x" where d is a directory without __init__.py
-   (a namespace package) is resolved through the third-party branch only *)
-Definition drop_ns_from (pr : project) : project :=
-  map_imports (fun m => filter (fun s => match i_form s with
-                                         | ImportFrom p _ => is_module pr p
-                                         | _ => true
-                                         end) (m_imports m)) pr.
-
-(* class 9: two files with one module name (m.py next to m/__init__.py): the imports of both are attributed to m;
-   the graph is then the specification's graph of [pr_model] itself, where both files are listed *)
-
 (* class 8, the import root lies below pyscn's project root: an absolute import is searched in the importing
    directory, in pyscn's root and in the parent directory, so from a directory two or more levels below the
    import root it is found in none of them *)
@@ -50,11 +39,10 @@ Definition prefix_edges (prefix : path) (es : list edge) : list edge :=
 
 (* [pr_model]: the project as the analyser sees it (its own reading of the guards, wildcard names kept);
    [pr_spec]: the project as CPython runs it (guards evaluated, wildcards written out by the harness);
-   both relative to the import root; [prefix]: the path from pyscn's project root to the import root;
-   [tcs]: for every guarded statement (the analyser's, Python's) answer to "type-checking only?".
+   both relative to the import root; [prefix]: the path from pyscn's project root to the import root.
    Result: spec edges, model edges (two file orders agree), deviation classes 1-4 of the spec project, the new
    classes present with the graph the specification gives once the deviation is applied, metrics, depth. *)
-Definition run_project_x (dag : bool) (o : opts) (prefix : path) (tcs : list (bool * bool)) (pr_model pr_spec : project) :=
+Definition run_project_x (dag : bool) (o : opts) (prefix : path) (pr_model pr_spec : project) :=
   let prm := add_prefix prefix pr_model in
   let g := AnalyzeFiles_o o prm prm in
   let g' := AnalyzeFiles_o o prm (rev prm) in
@@ -62,15 +50,14 @@ Definition run_project_x (dag : bool) (o : opts) (prefix : path) (tcs : list (bo
   let alt (pr' : project) := prefix_edges prefix (edges_py_o o pr') in
   (spec, g_edges g, same_edges (g_edges g) (g_edges g'), deviation_classes pr_spec,
    (if class_wildcard_reexport pr_model then [(5%N, alt (drop_star pr_model))] else []) ++
-   (if class_namespace_package pr_spec && negb (o_third o) then [(6%N, alt (drop_ns_from pr_spec))] else []) ++
-   (if existsb (fun p => negb (Bool.eqb (fst p) (snd p))) tcs then [(7%N, alt pr_model)] else []) ++
-   (match prefix with [] => [] | _ => [(8%N, alt (drop_deep_abs pr_spec))] end) ++
-   (if nodup_paths (module_names pr_model) then [] else [(9%N, alt pr_model)]),
+   (match prefix with [] => [] | _ => [(8%N, alt (drop_deep_abs pr_spec))] end),
    map (fun m => (m_path m, module_metrics g (m_path m))) prm,
    (calculateMaxDepth (g_nodes g) (g_edges g), if dag then longest_chain (g_nodes g) (g_edges g) else 0%nat)).
 
 Definition run_resolve_x (pr : project) : list (list (list path)) :=
   map (fun m => map (resolve_py pr m) (m_imports m)) pr.
 
-(* the value Python gives a guard (compared with python3 by the harness) and the analyser's reading of it *)
-Definition run_guards (gs : list gexpr) : list (bool * bool) := map (fun e => (eval_guard e, isTypeCheckingCondition e)) gs.
+(* the value Python gives a guard (compared with python3 by the harness) and the analyser's reading of it: is the body
+   type-checking-only, are the elif / else branches *)
+Definition run_guards (gs : list gexpr) : list (bool * bool * bool) :=
+  map (fun e => (eval_guard e, isTypeCheckingCondition e, isNotTypeCheckingCondition e)) gs.
